@@ -153,11 +153,125 @@ def _http_case(http, n, k):
     return b, ctx, viol_len, viol_pos, reach_ok, reach_err, bad, rids, s
 
 
+def _ws_front_case(core, k):
+    """the async client's batch_request resumed after the back end delivered its (already positional) list of k responses: the caller's result list keeps
+    that length and that order, entry i being the decoding of element i"""
+    import re
+    from .. import prov as P, models as M, seqmodels as SQ
+    b = R.find_body(core, r"^fn async_client::<impl at core/src/client/async_client/mod\.rs:[\d: ]+>::batch_request::\{closure#0\}\(_1: Pin<&mut \{async block@core/src/client/async_client/mod\.rs")
+    # the suspended state that awaits run_future_until_timeout
+    m = re.search(r"variant#(\d+)\)\.\d+: \{async fn body of .*run_future_until_timeout", "\n".join(b.debug.values()) + "\n" + "\n".join(str(v) for v in b.locals.values()))
+    state = None
+    for name, dbg in b.debug.items():
+        mm = re.match(r"^\(\(\(\*_\d+\) as variant#(\d+)\)\.(\d+): ", dbg or "")
+        if mm and name == "__awaitee":
+            state = int(mm.group(1))
+    if state is None:
+        state = 3
+    okf = [z3.Bool(f"elem{j}.is_success") for j in range(k)]
+    dec = [z3.Bool(f"elem{j}.decodes") for j in range(k)]
+
+    def m_poll_reply(ex, st, callee, args, dty, site):
+        rps = LM.new_list(ex, [Opaque(z3.Const(f"backend_elem{j}", T.OBJ)) for j in range(k)], name="json_values")
+        return ex.mk_variant("Poll", 0, "Ready", ex.mk_variant("Result", 0, "Ok", rps))
+
+    def idx_of(v):
+        mm = re.search(r"backend_elem(\d+)", str(to_term(v)))
+        return int(mm.group(1)) if mm else None
+
+    def m_try_from(ex, st, callee, args, dty, site):
+        j = idx_of(args[0])
+        if j is None:
+            return NotImplemented
+        return Fork([(okf[j], lambda ex_, st_, tr: ex_.mk_variant("Result", 0, "Ok", Opaque(z3.Const(f"success_of_backend_elem{j}", T.OBJ)))),
+                     (z3.Not(okf[j]), lambda ex_, st_, tr: ex_.mk_variant("Result", 1, "Err", Opaque(z3.Const(f"error_of_backend_elem{j}", T.OBJ))))])
+
+    def m_from_str(ex, st, callee, args, dty, site):
+        j = idx_of(args[0])
+        if j is None:
+            return NotImplemented
+        return Fork([(dec[j], lambda ex_, st_, tr: ex_.mk_variant("Result", 0, "Ok", Opaque(z3.Const(f"value_of_backend_elem{j}", T.OBJ)))),
+                     (z3.Not(dec[j]), lambda ex_, st_, tr: ex_.mk_variant("Result", 1, "Err", Opaque(z3.Const(f"decode_error{j}", T.OBJ))))])
+    from ..sym import Fork
+    extra = [(r"run_future_until_timeout<.*\(\)\} as (\w+::)*Future>::poll$", m_poll_reply), (r"^RawResponse::<'_>::into_inner$", M.m_identity),
+             (r"^<ResponseSuccess<'_, Box<RawValue>> as TryFrom<", m_try_from), (r"^serde_json::from_str::<'_, R>$", m_from_str),
+             (r"^RawValue::get$", lambda ex, st, c, a, d, s: Opaque(z3.Const("text:" + str(to_term(a[0])), T.OBJ)))]
+    ctx = P.make_ctx(core, extra_models=extra + LM.LIST_MODELS + SQ.TRY_MODELS + list(M.TRACING_MODELS) + list(M.INT_MODELS), max_paths=20000, max_visits=k + 4)
+    ctx.inline = []
+
+    def on_havoc(ex_, st, node, callee):
+        """an unmodelled call got `&mut` access to the delivered list: its length is kept but which element sits where is no longer known"""
+        if LM.is_list(node):
+            for i, el in enumerate(LM.elems(node)):
+                el.val, el.kids = Opaque(z3.Const(f"unknown_position_after:{callee[:40]}:{i}", T.OBJ)), {}
+            return True
+        return False
+    ctx.on_havoc = on_havoc
+    ex = Executor(ctx)
+
+    def pre(e, st, body):
+        pin = st["mem"][(0, body.params[0][0])]
+        stn = e.pointee(e.child(pin, 0, "&mut S"))
+        d = Node(stn.name + ".discr", "isize")
+        d.val = z3.BitVecVal(state, 64)
+        stn.kids["discr"] = d
+    paths = ex.run(b, pre=pre)
+    viol, reach_ok, reach_err, bad = [], [], [], []
+    for p in paths:
+        if p.kind in ("unsupported", "limit", "unwound"):
+            bad.append((p.kind, p.detail))
+            continue
+        if p.kind != "return" or not isinstance(p.ret, Node):
+            continue
+        rdy = ex.read_node(p.ret.kids[("Ready", 0)]) if ("Ready", 0) in p.ret.kids else None
+        if not isinstance(rdy, Node):
+            continue
+        d = z3.simplify(ex.discr_of(rdy))
+        pc = p.cond()
+        if not z3.is_bv_value(d):
+            bad.append(("unsupported", "result discriminant"))
+            continue
+        if d.as_long() == 1:
+            reach_err.append(pc)
+            # the whole call may fail only because some successful entry did not decode
+            viol.append(z3.And(pc, *[z3.Or(z3.Not(okf[j]), dec[j]) for j in range(k)]))
+            continue
+        reach_ok.append(pc)
+        br = ex.read_node(rdy.kids[("Ok", 0)])
+        vec = ex.read_node(br.kids[("name", "responses")]) if isinstance(br, Node) and ("name", "responses") in br.kids else None
+        if not (isinstance(vec, Node) and LM.is_list(vec)) or len(LM.elems(vec)) != k:
+            viol.append(pc)
+            continue
+        for i, el in enumerate(LM.elems(vec)):
+            txt = _deep_str(ex, el)
+            if f"backend_elem{i}" not in txt or any(f"backend_elem{j}" in txt for j in range(k) if j != i):
+                viol.append(pc)
+    return b, ctx, viol, reach_ok, reach_err, bad
+
+
 def _deep_str(ex, node, depth=0):
     v = ex.read_node(node)
     if isinstance(v, Node):
         return "(" + ",".join(_deep_str(ex, k, depth + 1) for k in v.kids.values()) + ")" if depth < 8 else "..."
     return str(to_term(v))
+
+
+def ws_front_obligations(core, ks):
+    """(also part of C03: a batch entry is a call, and must get the response bearing its own id)"""
+    out = []
+    for k in ks:
+        b, ctx, viol, reach_ok, reach_err, bad = _ws_front_case(core, k)
+        name = f"ws:batch_request:front-end:k={k}:order-kept"
+        if bad or not reach_ok:
+            out.append(R.Result(engine="mirsym", name=name, kind="kernel", status="unsupported" if bad else "vacuous", detail=str(bad[:1])[:300], bodies=[b.name]))
+            continue
+        q = [v if isinstance(v, z3.ExprRef) else z3.BoolVal(bool(v)) for v in viol]
+        out.append(R.decide(name, "kernel", z3.Or(*q) if q else z3.BoolVal(False), [z3.Or(*reach_ok)] + ([z3.Or(*reach_err)] if reach_err else []), bodies=[b.name],
+                            desc=f"the async client hands its caller exactly the {k} entries the back end delivered, in that order, entry i decoded from element i (the back end made them positional: "
+                                 "process_batch_response); the call fails as a whole only when a successful entry does not decode",
+                            bounds=f"{k} entries, each success / error object, each decodable or not", keydetail="ws-front-order",
+                            replay=dict(scenario="c12_ws_batch_order", vars={}, fixed={"pre": 9, "n": 3}, region=z3.BoolVal(True))))
+    return out
 
 
 def obligations(tier, seed):
@@ -209,6 +323,7 @@ def obligations(tier, seed):
                             keydetail="positional", replay=dict(scenario="c12_ws_batch", vars=args, fixed={"n": n, "k": k}, region=z3.And(z3.ULE(s, 1000))), **common))
         out.append(R.decide(name + ":no-panic", "kernel", z3.Or(*panics) if panics else z3.BoolVal(False), reach,
                             desc="no overflow / unwrap panic for any ids", bounds="as above", keydetail="panic", **common))
+    out += ws_front_obligations(core, (2, 3) if tier == "quick" else (1, 2, 3, 4))
     seen = set()
     for r_ in out:
         if r_.get("status") == "violated" and r_.get("key"):
